@@ -471,10 +471,14 @@ Boolean MACRO_Processor(PInputTag PInp, as_dynstr_t* p_dest) {
 
     /* process parameters */
 
+    /* a formal parameter whose argument has been SHIFTed away is empty */
+
     Lauf = PInp->Params;
-    for (z = 1; z <= PInp->ParCnt; z++) {
-        ExpandLine(Lauf->Content, z, p_dest);
-        Lauf = Lauf->Next;
+    for (z = 1; (z <= PInp->ParCnt) || (z <= PInp->Macro->ParamCount); z++) {
+        ExpandLine(Lauf ? Lauf->Content : "", z, p_dest);
+        if (Lauf) {
+            Lauf = Lauf->Next;
+        }
     }
 
     /* process special parameters */
@@ -922,6 +926,7 @@ static void ExpandMacro(PMacroRec OneMacro) {
 
             else if (z1 > OneMacro->ParamCount) {
                 AddStringListLast(&(Tag->Params), ArgStr[z1].str.p_str);
+                Tag->ParCnt++;
             }
         }
 
